@@ -258,6 +258,10 @@ def run_real(spec):
         if res.enough(8):
             break
         group = execnet.Group()
+        noise = core.worker_noise(rng.getrandbits(30), p=0.02, max_sleep_ms=5.0)
+        if run % 2:
+            noise.__enter__()  # line-level schedule noise inside the real worker (import-bootstrapped and "<string>" workers)
+            res.count("real_runs_with_worker_side_noise")
         try:
             if spec["spec"] == "popen":
                 gw = group.makegateway("popen//execmodel=main_thread_only")
@@ -278,6 +282,8 @@ def run_real(spec):
         except BaseException as e:
             res.violation(f"real-run-raised:{spec['spec']}:{type(e).__name__}", str(e)[-300:])
         finally:
+            if run % 2:
+                noise.__exit__()
             group.terminate(3.0)
     res.sample({"real": spec["spec"], "runs": spec["runs"]})
     return res
